@@ -468,3 +468,60 @@ Lemma table_nonvacuous :
   | _ => false
   end = true.
 Proof. vm_compute. reflexivity. Qed.
+
+(* ---- round 3: the call-count observer and removal at table level ---- *)
+Lemma getter_used_spec b i L newL slot : 0 <= L <= 63 -> 0 <= newL <= 63 -> 0 <= bhp b slot < 256 ->
+  getter_used b i L newL slot = o2_full_used (bhp b slot) L newL.
+Proof.
+  intros HL HnL Hr. unfold getter_used. rewrite !o2_getpart_eq by assumption.
+  destruct (o2_full_used (bhp b slot) L newL); [reflexivity|]. cbv zeta.
+  destruct (_ >? 0); [|reflexivity]. rewrite Z.eqb_refl. reflexivity.
+Qed.
+
+Section Rem.
+Variable hash : Z -> Z.
+Hypothesis hash_range : forall k, 0 <= hash k < 2 ^ 64.
+
+(* HashSet::Remove of any stored element keeps the table invariant: the pair of the lowest occupied slot moves with its key *)
+Lemma remove_at_spec L t b slot : Tinv hash L t -> occ (t b) slot ->
+  exists t', remove_at t b slot = Ok t' /\ Tinv hash L t' /\ cnt (t' b) = cnt (t b) - 1 /\ (forall j, j <> b -> t' j = t j) /\
+    (forall k, Present L t k -> k = bky (t b) slot \/ Present L t' k).
+Proof.
+  intros [Hwf Hel] Ho. pose proof (Hwf b) as Hwfb. pose proof (bwf_cnt _ Hwfb) as [Hc Hcv]. destruct Hwfb as (Henc & Hemp & Hoc).
+  unfold occ in Ho. set (bk := t b) in *. set (c := cnt bk) in *. set (lo := 3 - c).
+  unfold remove_at. fold bk. rewrite o2_remove_eq by (fold (cnt bk); fold c; lia). fold (cnt bk). fold c. cbv zeta. fold lo.
+  destruct (Z.geb_spec slot lo); [|lia].
+  destruct (st_dec (bst bk) Henc ltac:(lia)) as (Henc' & Hdec' & Hcnt' & Hs0').
+  set (st' := upd (bst bk) 1 (wrapU 8 (bst bk 1 - 1))) in *.
+  set (sh' := upd (upd (bsh bk) slot (bsh bk lo)) lo 128).
+  set (hp' := upd (bhp bk) slot (bhp bk lo)).
+  set (ky' := upd (bky bk) slot (bky bk lo)).
+  set (b' := mkB st' sh' hp' ky'). set (t' := tupd t b b').
+  assert (Ft : forall j, j <> b -> t' j = t j) by (intros j Hj; unfold t', tupd; destruct (Z.eqb_spec j b); [contradiction|reflexivity]).
+  assert (Fi : t' b = b') by (unfold t', tupd; rewrite Z.eqb_refl; reflexivity).
+  assert (Hcb' : cnt b' = c - 1).
+  { destruct Henc' as (_ & ? & _). rewrite cnt_val by (unfold b'; cbn [bst]; lia). unfold b'; cbn [bst]. lia. }
+  assert (Fdec : forall j, decode (bst (t' j)) = decode (bst (t j))).
+  { intros j. destruct (Z.eq_dec j b) as [->|Hne]; [rewrite Fi; unfold b'; cbn [bst]; exact Hdec'|rewrite Ft by assumption; reflexivity]. }
+  exists t'. split; [reflexivity|]. split; [split|split; [rewrite Fi; exact Hcb'|split; [exact Ft|]]].
+  - intros j. destruct (Z.eq_dec j b) as [->|Hne]; [|rewrite Ft by assumption; apply Hwf].
+    rewrite Fi. unfold bwf. rewrite Hcb'. split; [unfold b'; cbn [bst]; exact Henc'|]. unfold b'; cbn [bsh]. split; intros x Hx; unfold sh', upd.
+    + destruct (Z.eqb_spec x lo); [reflexivity|]. destruct (Z.eqb_spec x slot); [lia|]. apply Hemp. fold c. lia.
+    + destruct (Z.eqb_spec x lo); [lia|]. destruct (Z.eqb_spec x slot); apply Hoc; fold c; lia.
+  - intros b0 x Hb0 Hox. unfold occ in Hox. unfold elem_ok. destruct (Z.eq_dec b0 b) as [->|Hne].
+    + rewrite Fi in *. rewrite Hcb' in Hox. rewrite !Fdec.
+      assert (Hsrc : exists y, 3 - c <= y <= 2 /\ bky b' x = bky bk y /\ bsh b' x = bsh bk y /\ bhp b' x = bhp bk y).
+      { unfold b'; cbn [bky bsh bhp]. unfold ky', sh', hp', upd. destruct (Z.eqb_spec x lo); [lia|].
+        destruct (Z.eqb_spec x slot); [exists lo|exists x]; repeat split; lia. }
+      destruct Hsrc as (y & Hy & E1 & E2 & E3). rewrite E1, E2, E3.
+      destruct (Hel b y Hb0 ltac:(unfold occ; fold bk c; lia)) as (p1 & G). fold bk in G. exists p1. exact G.
+    + rewrite Ft in * by assumption. rewrite !Fdec. destruct (Hel b0 x Hb0 Hox) as (p1 & G). exists p1. exact G.
+  - intros k (b0 & x & Hb0 & Hox & Hk). destruct (Z.eq_dec b0 b) as [->|Hne].
+    + fold bk in Hox, Hk. unfold occ in Hox. fold c in Hox.
+      destruct (Z.eq_dec x slot) as [->|Hns]; [left; symmetry; exact Hk|right].
+      destruct (Z.eq_dec x lo) as [->|Hnl].
+      * exists b, slot. rewrite Fi. unfold occ. rewrite Hcb'. split; [assumption|]. split; [lia|]. unfold b'; cbn [bky]. unfold ky'. rewrite upd_same. exact Hk.
+      * exists b, x. rewrite Fi. unfold occ. rewrite Hcb'. split; [assumption|]. split; [lia|]. unfold b'; cbn [bky]. unfold ky'. rewrite upd_other by lia. exact Hk.
+    + right. exists b0, x. rewrite Ft by assumption. split; [assumption|split; assumption].
+Qed.
+End Rem.
